@@ -102,6 +102,10 @@ UClasses ==
    TDA  |-> Cls("typeddict", << [F("foo", TInt) EXCEPT !.alias = "Foo"], FD("bar", TEnum("ES"), VUndef) >>),
    CZ   |-> Cls("dataclass", << [F("a", TAnnot(TInt, << <<"min", 0>> >>)) EXCEPT !.cons = << <<"max", 10>> >>],
                                 [FD("l", TAnnot(TColl("list", TInt), << <<"max_items", 0>> >>), VList(<<>>)) EXCEPT !.cons = << <<"unique", TRUE>> >>, !.dk = "fac"] >>),
+   \* asymmetric fields of NAMED types: recursive only through a read-only (init=False) field;
+   \* an InitVar (write-only) field whose type is a class
+   RO   |-> Cls("dataclass", << F("a", TInt), [FD("back", TOpt(TObj("RO")), DNull) EXCEPT !.kind = "ro"] >>),
+   IVN  |-> Cls("dataclass", << F("a", TInt), [F("w", TObj("P1")) EXCEPT !.kind = "wo"], FD("e", TEnum("ES"), VEnum("ES", "A")) >>),
    UF   |-> Cls("dataclass", << F("u", TUnion(<<TInt, TEnum("ES")>>)), FD("l", TUnion(<<TEnum("EI"), TStr>>), DStr("s")) >>),
    EF   |-> Cls("dataclass", << F("e", TEnum("EI")), FD("l", TLit(<<DStr("a"), DInt(2)>>), DStr("a")) >>)]
 
